@@ -58,13 +58,17 @@ def generate(rng, tier, idx):
     if rng.random() < 0.3:
         round2 = {'edits': [e for e in GU.gen_edits(rng, info, rng.choice([0, 1, 2])) if not (e['m'] == 'delete' and e['p'] in info['dirs'])],
                   'force': rng.random() < 0.6}
-    return {'prop': ID, 'order_key': '%016x' % rng.getrandbits(64), 'tree': g['tree'], 'manifests': g['manifests'],
-            'round2': round2, 'cli_cmd': rng.choice(['update', 'update', 'create']),     # `create` over an existing tree, too
+    sc = {'prop': ID, 'order_key': '%016x' % rng.getrandbits(64), 'tree': g['tree'], 'manifests': g['manifests'],
+            'normalise_first': (top == 'Manifest' and rng.random() < 0.15), 'round2': round2, 'cli_cmd': rng.choice(['update', 'update', 'create']),     # `create` over an existing tree, too
             'edits': edits, 'orig_signed': rng.random() < 0.6, 'opt': opt, 'keyid': keyid,
             'top': top, 'watermark': rng.choice([None, None, 0, 100000]) if top == 'Manifest' else rng.choice([None, 0, 100000, 100000]),
             'api': rng.choice(['lib', 'lib', 'cli']) if top == 'Manifest' else 'lib', 'force': rng.random() < 0.5,
             'hashes': rng.choice([['SHA256'], ['MD5', 'SHA1'], ['BLAKE2B', 'SHA512']]),
             'fault': rng.choice([None] * 6 + ['exit1', 'exit2', 'kill', 'term', 'nooutput', 'missing', 'partial2', 'partial2'])}
+    if sc['normalise_first']:
+        sc['force'] = True
+        sc['round2'] = None
+    return sc
 
 
 def norm(text):
@@ -96,6 +100,19 @@ def run_world(sc, sign, keyid, fault, orig_signed):
         elif keyid:
             kid = '0x' + GS.FPR[keyid]
         try:
+            if sc.get('normalise_first'):
+                # an earlier, unsigned run has already brought every Manifest up to date with the same options: the run
+                # under test has nothing to change, only to (re)write what it is asked to
+                with GS.RealPeer():
+                    def pre():
+                        m0 = ManifestRecursiveLoader(top, openpgp_env=SystemGPGEnvironment(), sign_openpgp=False,
+                                                     hashes=sc['hashes'], compress_watermark=sc.get('watermark'))
+                        m0.update_entries_for_directory('')
+                        m0.save_manifests(force=True)
+                    call(pre)
+                tops0 = [n for n in G.MANIFEST_NAMES if os.path.exists(os.path.join(w.root, n))]
+                if len(tops0) == 1:
+                    top = os.path.join(w.root, tops0[0])
             with GS.RealPeer(fault=fault, missing=(fault == 'missing')):
                 with seam:
                     seam.begin_op(0)
@@ -164,7 +181,7 @@ def execute(sc):
     sign = {'unset': None, 'on': True, 'off': False}[sc['opt']]
     fault = sc.get('fault')
     keyid = sc.get('keyid')
-    orig = sc.get('orig_signed')
+    orig = sc.get('orig_signed') and not sc.get('normalise_first')
     r, text, armor, wrote_top, seam = run_world(sc, sign, keyid, fault, orig)
     expect_sign = (sign is True) or (sign is None and orig)
     signer_ok = fault is None and keyid not in ('unknown', 'expiring')
@@ -192,7 +209,7 @@ def execute(sc):
         # the save succeeded
         if text is None:
             violations.append(viol('sign.top-level-unreadable', '%s: top-level Manifest unreadable after a successful save' % what))
-        elif not wrote_top:
+        elif not wrote_top and not (sc.get('force') and sc.get('api') != 'cli' and not sc.get('round2')):
             counters['top-level-not-rewritten'] = 1
         else:
             signed_now = text.startswith('-----BEGIN PGP SIGNED MESSAGE-----')
